@@ -117,7 +117,7 @@ Proof.
     (destruct (get_param t (Z.of_nat h)) as [[m q]|] eqn:G; auto);
     destruct (get_param_some _ _ _ _ G) as (Sm & _ & Em & _); rewrite Nat2Z.id in Em; subst m;
     rewrite Sl in Sm; inv Sm;
-    (destruct (vn_fvalid v && negb (range_ok (frange (S (length (pt_slots t))) t h) (vn_f0 v) (vn_fmax v)))%bool; auto);
+    (destruct (vn_ranged v && negb (range_ok (frange (S (length (pt_slots t))) t h) (vn_f0 v) (vn_fmax v)))%bool; auto);
     destruct (p_kind q); simpl in O; auto; try discriminate.
   inv O. apply IH; lia.
 Qed.
@@ -132,7 +132,7 @@ Proof.
     (destruct (get_param t (Z.of_nat h)) as [[m q]|] eqn:G; auto);
     destruct (get_param_some _ _ _ _ G) as (Sm & _ & Em & _); rewrite Nat2Z.id in Em; subst m;
     rewrite Sl in Sm; inv Sm;
-    (destruct (vn_fvalid v && negb (range_ok (frange (S (length (pt_slots t))) t h) (vn_f0 v) (vn_fmax v)))%bool; auto);
+    (destruct (vn_ranged v && negb (range_ok (frange (S (length (pt_slots t))) t h) (vn_f0 v) (vn_fmax v)))%bool; auto);
     destruct (p_kind q); simpl in O; auto; try discriminate.
   inv O. rewrite (IH f1 f2) by lia. auto.
 Qed.
@@ -233,7 +233,7 @@ Proof.
     apply acc_held; auto. }
   destruct (get_param t z) as [[n p]|] eqn:G; [|discriminate].
   destruct (get_param_some _ _ _ _ G) as (Sn & Dn & En & Hz). subst n.
-  destruct (vn_fvalid v && negb (range_ok (frange (S (length (pt_slots t))) t (Z.to_nat z)) (vn_f0 v) (vn_fmax v)))%bool
+  destruct (vn_ranged v && negb (range_ok (frange (S (length (pt_slots t))) t (Z.to_nat z)) (vn_f0 v) (vn_fmax v)))%bool
     eqn:Rg; [discriminate|].
   apply acc_visible with p; auto.
   - apply andb_false_iff in Rg. destruct Rg as [Rg|Rg]; [left; auto|right].
@@ -256,7 +256,7 @@ Proof.
     { unfold get_param. destruct (Z.ltb_spec h 0); try lia. rewrite Sl, D. auto. }
     rewrite G.
     destruct (walk_total_table _ _ R A _ _ Sl) as (e & _ & _ & E3 & E4).
-    assert (Rg' : (vn_fvalid v && negb (range_ok (frange (S (length (pt_slots t))) t (Z.to_nat h)) (vn_f0 v) (vn_fmax v)))%bool = false).
+    assert (Rg' : (vn_ranged v && negb (range_ok (frange (S (length (pt_slots t))) t (Z.to_nat h)) (vn_f0 v) (vn_fmax v)))%bool = false).
     { destruct Rg as [Rg|(e' & Ee & Rg)].
       - rewrite Rg. auto.
       - rewrite E4, (ends_at_unique _ _ _ E3 _ Ee), Rg. apply andb_false_r. }
@@ -352,7 +352,7 @@ Proof.
   destruct ((0 <=? h)%Z && in_nat (Z.to_nat h) (vn_params v))%bool.
   { exists t, v. ssplit; auto. apply HR_refl. apply VR_refl. }
   destruct (get_param t h) as [[n p]|] eqn:G; [|discriminate].
-  destruct (vn_fvalid v && negb (range_ok (frange (S (length (pt_slots t))) t n) (vn_f0 v) (vn_fmax v)))%bool;
+  destruct (vn_ranged v && negb (range_ok (frange (S (length (pt_slots t))) t n) (vn_f0 v) (vn_fmax v)))%bool;
     [discriminate|].
   assert (Reg : forall t1 v1 (b : bool), HR t t1 -> VR v v1 ->
             HR t (hold t1 n) /\
@@ -385,8 +385,8 @@ Proof.
   pose proof (Hs n) as Hn. rewrite Sn in Hn. destruct (slot t' n) as [q|] eqn:Sq; [|tauto]. destruct Hn as (Kq & Dq).
   assert (G' : get_param t' h = Some (n, q)).
   { unfold get_param. destruct (Z.ltb_spec h 0); try lia. rewrite <- En, Sq, Dq, Dn. auto. }
-  rewrite G'. rewrite Len, (frange_HR _ _ Ht). unfold vn_fmax in *. rewrite V2, V3, V4.
-  destruct (vn_fvalid v && negb (range_ok (frange (S (length (pt_slots t))) t n) (vn_f0 v)
+  rewrite G'. rewrite Len, (frange_HR _ _ Ht). unfold vn_fmax, vn_ranged in *. rewrite V2, V3, V4.
+  destruct (vn_fvalid v && (0 <? vn_nf v) && negb (range_ok (frange (S (length (pt_slots t))) t n) (vn_f0 v)
               (vn_f0 v + Z.of_nat (vn_nf v) - 1)))%bool; [discriminate|].
   rewrite Kq. destruct (p_kind p); auto.
 Qed.
@@ -468,13 +468,13 @@ Proof.
   - simpl; auto.
   - destruct (nth_error (st_news s) id) as [[v|]|]; try (simpl; auto; fail).
     destruct ((dim <? 1)%Z || negb (type_valid ty))%bool; simpl; auto.
-  - destruct (get_new s id) as [v|]; [|simpl; auto]. destruct (f0 <? 0)%Z; [simpl; auto|].
+  - destruct (get_new s id) as [v|]; [|simpl; auto]. destruct ((0 <? vn_nf v) && (f0 <? 0)%Z)%bool; [simpl; auto|].
     match goal with |- context [if ?b then _ else _] => destruct b end; simpl; auto.
   - destruct (get_new s id) as [v|]; [|simpl; auto].
     match goal with |- context [if negb ?b then (s, fail_usage) else _] => destruct b end; [|simpl; auto].
     simpl negb. cbv iota. destruct (vn_get_params (st_pt s) v hs) as [[t1 v1] [|]]; simpl; auto.
   - destruct (get_new s id) as [v|]; [|simpl; auto]. destruct (negb (vn_fvalid v)); [simpl; auto|].
-    destruct (negb oracle_ok); simpl; auto.
+    destruct (negb oracle_ok && (0 <? vn_nf v))%bool; simpl; auto.
   - destruct (find_name (st_cals s) name); simpl; auto.
   - destruct (cal_at (st_cals s) ci); simpl; auto.
   - simpl; auto.
